@@ -182,7 +182,28 @@ def run_crashmon(prop, tier, t0):
                                                  'c13_kill_before_write', 'c13_reader_processes'])
 
 
-ENGINES = {'C13': run_crashmon, 'C19': run_valmon, 'C03': run_archmon, 'C08': run_archmon, 'C04': run_procmon, 'C17': run_procmon}
+def run_concmon(prop, tier, t0):
+    from kv import concmon
+    opts = {'quick': {'cases': 1600, 'budget_s': 60, 'free_every': 5},
+            'thorough': {'cases': 60000, 'budget_s': 1500, 'free_every': 4}}[tier]
+    merged, problems = common.run_shards('concmon', prop, tier, common.NCPU, opts,
+                                         timeout=opts['budget_s'] * 3 + 240)
+    c = merged['counters']
+    if c.get('c14_watchdog_expired', 0) > max(3, merged['cases'] // 20):
+        problems.append('%d schedules hit the watchdog' % c['c14_watchdog_expired'])
+    return common.conclude(prop, tier, t0, merged, problems, concmon.RULE, 200, 'concmon',
+                           assumptions=ASSUME_COMMON + [
+                               'gated schedules serialise the processes at libc file-system-call granularity (open/read/'
+                               'write/close/rename/unlink/rmdir/mkdir/stat/opendir...); sqlite byte-range locks (fcntl) are '
+                               'not gated - a process spinning in sqlite\'s busy handler is treated as running and the '
+                               'controller moves on after a 30 ms grace period',
+                               'writers only store (never delete), values are unique per write, so every read is '
+                               'attributable; wall-clock never decides a verdict (watchdog expiry = dropped schedule, counted)',
+                           ], required_counters=['c14_schedules_gated', 'c14_schedules_free', 'c14_overlapping_op_pairs',
+                                                 'c14_gate_grants'])
+
+
+ENGINES = {'C14': run_concmon, 'C13': run_crashmon, 'C19': run_valmon, 'C03': run_archmon, 'C08': run_archmon, 'C04': run_procmon, 'C17': run_procmon}
 for _p in CACHEMON:
     ENGINES[_p] = run_cachemon
 for _p in KEYMON:
